@@ -141,14 +141,31 @@ def strip_comments(src):
     return "".join(out)
 
 
-def audit_sources():
-    """grep for forbidden constructs outside comments; returns list of hits"""
+def import_closure(modules):
+    """the project files reachable through `import` from the given modules (plus the driver)"""
+    seen, todo = set(), list(modules) + ["Main", "MsqModel"]
+    while todo:
+        m = todo.pop()
+        if m in seen:
+            continue
+        path = os.path.join(LEAN, *m.split(".")) + ".lean"
+        if not os.path.exists(path):
+            continue
+        seen.add(m)
+        for line in open(path, encoding="utf-8"):
+            mm = re.match(r"\s*import\s+(\S+)", line)
+            if mm and mm.group(1).split(".")[0] in ("MsqModel", "MsqProofs"):
+                todo.append(mm.group(1))
+    return sorted(os.path.join(LEAN, *m.split(".")) + ".lean" for m in seen)
+
+
+def audit_sources(modules=()):
+    """grep for forbidden constructs outside comments in everything the property's modules import; returns list of hits"""
     hits = []
-    for root in ("MsqModel", "MsqProofs"):
-        for dp, _, fns in os.walk(os.path.join(LEAN, root)):
-            for fn in fns:
-                if fn.endswith(".lean"):
-                    p = os.path.join(dp, fn)
+    for p in import_closure(modules):
+        for _ in (0,):
+            for __ in (0,):
+                if True:
                     src = strip_comments(open(p, encoding="utf-8").read())
                     # string literals may legitimately contain words like "unsafe"; drop them
                     src = re.sub(r'"(\\.|[^"\\])*"', '""', src)
